@@ -166,10 +166,14 @@ static std::string fields(const Transition* t)
 static std::string current_of(const Transition* t)
 {
   try {
+    const Transition* cur = nullptr;
     if (t->type_ == TT::TESTANY)
-      return fields(static_cast<const TestAnyTransition*>(t)->get_current_transition());
-    if (t->type_ == TT::WAITANY)
-      return fields(static_cast<const WaitAnyTransition*>(t)->get_current_transition());
+      cur = static_cast<const TestAnyTransition*>(t)->get_current_transition();
+    else if (t->type_ == TT::WAITANY)
+      cur = static_cast<const WaitAnyTransition*>(t)->get_current_transition();
+    else
+      return "-";
+    return cur == nullptr ? "NONE" : fields(cur);
   } catch (const std::exception& e) {
     return std::string("EXCEPTION ") + esc(e.what());
   }
